@@ -15,6 +15,10 @@ CLAIMED['C18'] = dict(
    text="Proof: crash/raise semantics of `adeu init` over an abstract world (config/backup contents Orig|New|Junk) where every effect can complete, raise half-way, or the process can die before or in the middle of it; crash_safe_sound proves for ANY initial world and ANY oracle that a skeleton accepted by the checker keeps the complete previous configuration in the file or in the backup. The skeleton of handle_init is regenerated from cli.py on every run and Props/C18.v re-proves its acceptance. Dynamically the real handle_init runs in forked children for every prior state (absent, empty, valid, invalid JSON, non-object, unexpected shapes, random objects) x both modes with a crash-before / crash-in-the-middle / OSError injected at every file-system call; the directory is inspected afterwards; the success half (valid JSON, only the adeu entry changes, idempotent) is checked on every fault-free run.",
    note="Trusted: Coq kernel; translator skel.py (validated by effect traces each run); abstraction of file contents; OS semantics of open/copy2/write; Python json is not modelled (success half is dynamic only).",
    technique="Coq-proved sound crash-safety checker over the skeleton regenerated from source + crash injection at every file-system call", ref="5 C18")
+CLAIMED['C14'] = dict(
+   text="Proof (partial): markup.py's matcher stages (exact, smart quotes), boundary refinement/repair, overlap filter, descending application and block construction are modelled in Gallina (Markup.v). Proved for every text/edit list and every fuzzy-oracle answer: the marked edits have non-empty, pairwise non-overlapping ranges that are the matcher's answers, displayed indexes are positions of the submitted list (C14_selected), and marker hoisting is lossless (C14_hoisting_lossless). The reject-view / accept-view / balance clauses are not yet theorems: they are decided by the exhaustive correspondence (quick: all texts <=3 x all targets <=2 over a 9-letter alphabet + 20k multi-edit lists, both modes) together with an independent CriticMarkup reader evaluating the statement on every implementation output.",
+   note="Trusted: Coq kernel, extraction + driver (vm_compute cross-check each run), Python re for the fuzzy stage (oracle input), ASCII char tables, the independent reader. Known limitation: accept-view equality is only checked where neither text nor targets contain * or _ (marker hoisting keeps the markers of the matched text by design).",
+   technique="Coq theorems over a hand-written Gallina model + exhaustive model/implementation correspondence + independent CriticMarkup reader", ref="5 C14")
 PENDING = {}
 def main():
     props = [json.loads(l) for l in open(os.path.join(V, 'properties.jsonl'))]
